@@ -96,11 +96,18 @@ IsLocalP(o, m, s, strict) ==
 
 (* What the properties pin for (o, m, s): 1 = must be accepted, 0 = must be   *)
 (* rejected, 2 = not pinned.  Not pinned: the escaped-neighbour band of 5322  *)
-(* whitespace, and local parts with non-ASCII characters when 6531 follows    *)
-(* 5322 (C17 pins only pure-ASCII local parts and ill-formed UTF-8 there).    *)
+(* whitespace.  Local parts with non-ASCII characters when 6531 follows 5322:  *)
+(* C17 says the option leaves their decision unchanged.  That is pinned for    *)
+(* local parts without quotes, backslashes, blanks and control characters      *)
+(* (atoms and dots: the 5321- and 5322-based rule sets cannot differ there);   *)
+(* with quoted content the option applies the 5322 rules to the ASCII          *)
+(* characters of a mixed local part, which the property does not settle.       *)
+PlainChars(s) == \A i \in 1..Len(s) : s[i] > 32 /\ s[i] # 127 /\ s[i] # DQ /\ s[i] # BS
 LocalExp(o, m, s) ==
   IF m = RFC6531 /\ o.f5322 /\ ~IsAsciiSeq(s)
-  THEN (IF WellFormed(s) THEN 2 ELSE 0)
+  THEN (IF ~WellFormed(s) THEN 0
+        ELSE IF PlainChars(s) THEN (IF IsLocalP([o EXCEPT !.f5322 = FALSE], m, s, TRUE) THEN 1 ELSE 0)
+        ELSE 2)
   ELSE IF QRules(o, m) # RFC5322 THEN (IF IsLocalP(o, m, s, TRUE) THEN 1 ELSE 0)
   ELSE IF IsLocalP(o, m, s, TRUE) THEN 1
   ELSE IF IsLocalP(o, m, s, FALSE) THEN 2 ELSE 0
